@@ -993,6 +993,45 @@ where
                 .collect();
             hs.into_iter().map(|h| h.join().unwrap_or_else(|_| b"!thread died".to_vec())).collect()
         });
+        // second kind of round: every thread decapsulates with its OWN recipient key (same KEM) at the same time -
+        // a process-wide cache keyed per KEM would hand one thread another thread's value
+        if round % 2 == 1 {
+            let fxs: Vec<Arc<Fix>> = (0..c.threads as u64).map(|t| fix(suite, Mode::Base, 60 + t + 8 * (round as u64 % 5), seed)).collect();
+            let barrier = std::sync::Barrier::new(c.threads as usize);
+            let res: Vec<Vec<u8>> = std::thread::scope(|sc| {
+                let hs: Vec<_> = fxs
+                    .iter()
+                    .map(|fx| {
+                        let barrier = &barrier;
+                        sc.spawn(move || {
+                            let sk = K::PrivateKey::from_bytes(&fx.k.sk_r).unwrap();
+                            let enc = K::EncappedKey::from_bytes(&fx.enc).unwrap();
+                            let mr = mode_r::<K>(&fx.m).unwrap();
+                            barrier.wait();
+                            let r = std::panic::catch_unwind(std::panic::AssertUnwindSafe(|| {
+                                let mut o = vec![0u8; 40];
+                                match hpke::setup_receiver::<A, D, K>(&mr, &sk, &enc, &fx.info) {
+                                    Ok(ctx) => {
+                                        ctx.export(b"e3", &mut o).unwrap();
+                                        o
+                                    }
+                                    Err(e) => format!("!{:?}", e).into_bytes(),
+                                }
+                            }));
+                            r.unwrap_or_else(|_| b"!panicked".to_vec())
+                        })
+                    })
+                    .collect();
+                hs.into_iter().map(|h| h.join().unwrap_or_else(|_| b"!thread died".to_vec())).collect()
+            });
+            for (t, r) in res.iter().enumerate() {
+                out.transitions += 1;
+                if *r != fxs[t].export {
+                    out.fail(format!("{}: round {}: thread {} (own recipient key, {} other receivers of the same KEM running) got {} instead of the sequential result", suite.name(), round, t, c.threads - 1, if r.first() == Some(&b'!') { String::from_utf8_lossy(r).to_string() } else { obs::hx(r) }));
+                    return;
+                }
+            }
+        }
         for (t, r) in results.iter().enumerate() {
             out.transitions += 1;
             if *r != fx.export {
